@@ -92,3 +92,34 @@ package chord
 //@   loop 2 invariant len(errs) == 0 ==> attrsKnown(m, c) && parentKnown(m, c)
 //@   loop 2 invariant dom(seen, c.Name) && seen[c.Name]
 //@   loop 2 invariant len(errs) == 0 ==> x == c.Extends || notOwnParent(m, c)
+
+//@ define mapOK(m) forall(k, string, dom(m.chords, k) ==> entryOK(m, m.chords[k]))
+
+// NewMap hands out a dictionary only if every entry passed the checks
+//@ func NewMap returns (r, err)
+//@   allocs Map, []Iface, map[string]bool
+//@   ensures err == nil ==> r != nil && fresh(r) && r.attributes == attributes && r.chords == chords && mapOK(*r)
+//@   ensures err != nil ==> r == nil
+
+// Build indexes every chord under its long name and under its display symbol, a later definition replacing an
+// earlier one under either key (so user files can override built-ins), and every attribute under its name
+//@ define lastNamed(b, j, key) forall(l, j + 1, len(b.chords), b.chords[l].Name != key && b.chords[l].Meta.Display != key)
+//@ func Builder.Build returns (r, err)
+//@   allocs Map, map[string]Attribute, map[string]Chord, []Iface, map[string]bool
+//@   ensures err != nil ==> r == nil
+//@   ensures err == nil ==> r != nil && fresh(r) && mapOK(*r)
+//@   ensures err == nil ==> forall(k, string, dom(r.chords, k) == exists(j, 0, len(b.chords), b.chords[j].Name == k || b.chords[j].Meta.Display == k))
+//@   ensures err == nil ==> forall(j, 0, len(b.chords), lastNamed(b, j, b.chords[j].Name) ==> r.chords[b.chords[j].Name] == b.chords[j])
+//@   ensures err == nil ==> forall(j, 0, len(b.chords), lastNamed(b, j, b.chords[j].Meta.Display) ==> r.chords[b.chords[j].Meta.Display] == b.chords[j])
+//@   ensures err == nil ==> forall(k, string, dom(r.attributes, k) == exists(j, 0, len(b.attrs), b.attrs[j].Name == k))
+//@   loop 0 modifies attrs
+//@   loop 0 invariant 0 - 1 <= rangeindex && rangeindex < len(b.attrs)
+//@   loop 0 invariant forall(k, string, dom(attrs, k) == exists(j, 0, rangeindex + 1, b.attrs[j].Name == k))
+//@   loop 0 decreases len(b.attrs) - rangeindex
+//@   loop 1 modifies chords
+//@   loop 1 invariant 0 - 1 <= rangeindex && rangeindex < len(b.chords)
+//@   loop 1 invariant forall(k, string, dom(chords, k) == exists(j, 0, rangeindex + 1, b.chords[j].Name == k || b.chords[j].Meta.Display == k))
+//@   loop 1 invariant forall(j, 0, rangeindex + 1, forall(l, j + 1, rangeindex + 1, b.chords[l].Name != b.chords[j].Name && b.chords[l].Meta.Display != b.chords[j].Name) ==> chords[b.chords[j].Name] == b.chords[j])
+//@   loop 1 invariant forall(j, 0, rangeindex + 1, forall(l, j + 1, rangeindex + 1, b.chords[l].Name != b.chords[j].Meta.Display && b.chords[l].Meta.Display != b.chords[j].Meta.Display) ==> chords[b.chords[j].Meta.Display] == b.chords[j])
+//@   loop 1 invariant forall(k, string, dom(attrs, k) == exists(j, 0, len(b.attrs), b.attrs[j].Name == k))
+//@   loop 1 decreases len(b.chords) - rangeindex
